@@ -8,6 +8,7 @@ import (
 	"bytes"
 	"fmt"
 	"io/fs"
+	"math"
 	"os"
 	"path"
 	"path/filepath"
@@ -107,6 +108,8 @@ func (t *TestRenumberer) processFile(filePath string, checkOnly bool, gitHubOutp
 
 func (t *TestRenumberer) processYaml(ruleId string, contents []byte) ([]byte, error) {
 	scanner := bufio.NewScanner(bytes.NewReader(contents))
+	// lines may be longer than bufio.MaxScanTokenSize
+	scanner.Buffer(nil, math.MaxInt)
 	scanner.Split(bufio.ScanLines)
 	output := new(bytes.Buffer)
 	writer := bufio.NewWriter(output)
